@@ -224,6 +224,13 @@ func checkC06(c *Check) {
 	// ---------- 4: everything internal is close-on-exec ----------
 	checkCloexecSites(c, r)
 	c.Extra["assignments_enumerated"] = x.nEnum
+
+	// a descriptor list that does not fit the control buffer is rejected, never delivered short (C19.2), and every
+	// descriptor the framework creates is born close-on-exec, memfd included (C17.1)
+	importObs(c, "C19", "C19.2/truncation-rejected", "6/list-delivered-whole", nil)
+	c.Expect("6/list-delivered-whole", 2)
+	importObs(c, "C17", "C17.1/fork-lock", "7/born-cloexec", func(o Obligation) bool { return strings.Contains(o.Key, "cloexec") })
+	c.Expect("7/born-cloexec", 3)
 }
 
 func isSyncChannelDirect(v ssa.Value) bool {
